@@ -314,7 +314,6 @@ static void on_state(const struct rtr_socket *s, const enum rtr_socket_state st,
 {
 	(void)a;
 	(void)bb;
-	(void)s;
 	ev("state:%s", rtr_state_to_str(st) ? rtr_state_to_str(st) : "?");
 	env_log("st=%d", st);
 	if (is_prop("C15R")) {
@@ -342,6 +341,10 @@ static void on_state(const struct rtr_socket *s, const enum rtr_socket_state st,
 		bool foreign;
 		unsigned int mask = sock_mask(&foreign);
 
+		/* the manager exploration's stub sets last_update right before it reports ESTABLISHED: so must the FSM */
+		if (is_prop("C15R") && s->last_update == 0)
+			violation("established-without-last-update",
+				  "the socket reported ESTABLISHED while its last_update is 0: the manager would not count a synchronised socket");
 		/* a synchronisation completed */
 		MON.synced_once = true;
 		MON.t_success = ENV.now;
@@ -801,6 +804,13 @@ static int hook_open(void)
 				 (long)(ENV.now - MON.t_success), SOCK->expire_interval, mask);
 			violation("expired-data-present-at-connect", what);
 		}
+		/*
+		 * C07 / C15: last_update is what the group manager and rtr_mgr_conf_in_sync read as "this socket holds
+		 * synchronised data" (0 = holds none); once the records are purged it must say so
+		 */
+		if ((is_prop("C07") || is_prop("C15R")) && c != O_FAIL_SLOW && SOCK->last_update != 0)
+			violation("expired-socket-claims-data",
+				  "at open() beyond the expire interval the socket's last_update is still set: the manager would count the socket as holding synchronised data");
 		if (c != O_FAIL_SLOW) {
 			MON.expect_reset_on_this_conn = true;
 			MON.have = false;
@@ -1098,6 +1108,9 @@ static void after_stop_checks(void)
 		if (!x_intact())
 			violation("other-source-altered|stop", "rtr_stop altered records of another source");
 	}
+	if ((is_prop("C07") || is_prop("C15R")) && SOCK->last_update != 0)
+		violation("stopped-socket-claims-data",
+			  "after rtr_stop returned the socket's last_update is still set: the manager would count the socket as holding synchronised data");
 	MON.have = false;
 	MON.reset_cause = true;
 	MON.synced_once = false;
